@@ -34,7 +34,8 @@ ASSUMPTIONS = [
 BOUNDS = {"points": 3}
 KF_CR = "KF-C04-lineterminator-without-CR"
 ENCODINGS = [None, "utf-8", "utf-16", "latin-1"]
-DIALECTS = [{}, {"delimiter": ";"}, {"quoting": csv.QUOTE_ALL}, {"quotechar": "'"}, {"lineterminator": "\n"}]
+KF_SKIP = "KF-C04-skipinitialspace-strips-leading-blanks"
+DIALECTS = [{}, {"delimiter": ";"}, {"quoting": csv.QUOTE_ALL}, {"quotechar": "'"}, {"lineterminator": "\n"}, {"skipinitialspace": True}, {"escapechar": "\\", "doublequote": False}]
 STRS = ["a", "", "x,y", 'q"q', "s'q", "l\nm", "r\rs", "c\r\nd", "é", " sp ", ";", "p\n\nq", "u\r\n \r\nv"]
 FVALS = [1, -0.5, None, 0]
 SKELETONS = {
@@ -92,6 +93,8 @@ def h_file(params):
             s2 = STRS[choose("s2", len(STRS))] if params.get("two") else "a"
             compact = bool(sym_bool("compact"))
             if KF_CR in params.get("exclude", []) and dia.get("lineterminator") == "\n" and ("r\rs" in (s1, s2)):
+                raise lpe.Infeasible()  # known finding excluded: see known_findings.json
+            if KF_SKIP in params.get("exclude", []) and dia.get("skipinitialspace") and (" sp " in (s1, s2)):
                 raise lpe.Infeasible()  # known finding excluded: see known_findings.json
 
             def pspec():
@@ -161,6 +164,8 @@ def classify(ob, res):
     strs = {STRS[inp[k]] for k in ("s1", "s2") if k in inp}
     if DIALECTS[p.get("dialect", 0)].get("lineterminator") == "\n" and "r\rs" in strs:
         return KF_CR
+    if DIALECTS[p.get("dialect", 0)].get("skipinitialspace") and " sp " in strs:
+        return KF_SKIP
     return None
 
 
@@ -170,6 +175,8 @@ def obligations(tier):
         big = sk.startswith("big_")
         for e in range(len(ENCODINGS)):
             for d in range(len(DIALECTS)):
+                if d >= 5 and ENCODINGS[e] not in (None, "utf-16"):
+                    continue  # the two reader-side options: default and one multi-byte encoding
                 if big and (ENCODINGS[e] not in (None, "utf-16") or d > 1):
                     continue  # 150-row files: two encodings x two dialects are enough for the buffer-boundary behaviour
                 for ai in (True, False):
